@@ -471,8 +471,11 @@ void Ccp4<T>::setup(T default_value, MapSetup mode) {
       // no need to apply symmetry if we started with the whole cell
       (end[pos[0]] - start[pos[0]] < sampl[0] ||
        end[pos[1]] - start[pos[1]] < sampl[1] ||
-       end[pos[2]] - start[pos[2]] < sampl[2]))
+       end[pos[2]] - start[pos[2]] < sampl[2])) {
+    // symmetry mates are used as indices: the sampling must fit the space group
+    check_grid_factors(grid.spacegroup, {{grid.nu, grid.nv, grid.nw}});
     grid.symmetrize_nondefault(default_value);
+  }
 }
 
 template<typename T>
